@@ -64,13 +64,24 @@ SOURCES16 = ["goforward.raw", "goforward_fr.raw", "pizza-float32.raw", "goforwar
 SOURCES8 = ["sense_and_sensibility_01_austen_64kb-0880.wav"]
 
 
-def gen_audio(rng, samprate, stats):
-    kind = rng.weighted([("whole", 22), ("cutoff", 12), ("clip", 14), ("reverse", 10), ("noise", 10), ("quiet", 8), ("tiny", 16),
+def gen_audio(rng, samprate, stats, frate=100):
+    kind = rng.weighted([("whole", 20), ("wrap128", 10), ("cutoff", 12), ("clip", 14), ("reverse", 10), ("noise", 10), ("quiet", 8), ("tiny", 16),
                          ("concat", 8), ("loud", 4), ("empty", 4)])
     stats["audio"][kind] = stats["audio"].get(kind, 0) + 1
     srcs = SOURCES8 + SOURCES16[:1] if samprate == 8000 else SOURCES16 + (SOURCES8 if rng.chance(0.1) else [])
     src = rng.choice(srcs)
     n = len(source_samples(src))
+    if kind == "wrap128":
+        # streamed utterance whose frames searched before decoder_end_utt fall just below a multiple of the
+        # feature buffer size (128 on a fresh decoder): the frames flushed by end_utt straddle that boundary
+        shift = samprate // frate
+        cands = [(sname, k) for sname in (SOURCES8 if samprate == 8000 else SOURCES16[:3]) for k in (1, 2, 3)
+                 if k * 128 * shift + 5 * shift <= len(source_samples(sname))]
+        if cands:
+            sname, k = rng.choice(cands)
+            lo = k * 128 * shift + 2 * shift
+            return [{"src": sname, "a": 0, "b": rng.range(lo, lo + 3 * shift - 1), "kind": "wrap128"}]
+        kind = "whole"
     if kind == "cutoff":   # the recording cut before its last word(s): a path survives but not to the final state
         src = "sense_and_sensibility_01_austen_64kb-0880.wav" if samprate == 8000 else rng.choice(["goforward.raw", "goforward_fr.raw"])
         n = len(source_samples(src))
@@ -115,8 +126,15 @@ def vocab_for(lang):
     return (WORDS_FR, [], []) if lang == "fr-fr" else (WORDS_EN, ALT_EN, SHORT_EN)
 
 
-def pick_word(rng, lang):
+ALT_EXPLICIT_EN = ["a(2)", "the(2)", "to(2)", "to(3)", "and(2)", "zero(2)", "either(2)", "read(2)", "live(2)", "was(2)", "an(2)"]
+
+
+def pick_word(rng, lang, explicit_alt=False):
+    """explicit_alt: the grammar itself may name a pronunciation variant `word(N)` of the dictionary (not in
+    JSGF, where parentheses group); the hypothesis must still report its base form"""
     w, alt, short = vocab_for(lang)
+    if explicit_alt and lang == "en-us" and rng.chance(0.15):
+        return rng.choice(ALT_EXPLICIT_EN)
     r = rng.below(100)
     if alt and r < 14:
         return rng.choice(alt)
@@ -190,7 +208,7 @@ def gen_fsg(rng, lang, feats):
         for a, b in zip(order, order[1:]):
             lines.append(f"TRANSITION {a} {b} {rng.choice(['1.0', '0.5', '0.01'])}")
             if rng.chance(0.6):
-                lines.append(f"TRANSITION {a} {b} {rng.choice(['1.0', '0.3'])} {pick_word(rng, lang)}")
+                lines.append(f"TRANSITION {a} {b} {rng.choice(['1.0', '0.3'])} {pick_word(rng, lang, True)}")
         if rng.chance(0.4):
             lines.append(f"TRANSITION {order[-1]} {order[0]} 0.5")      # null cycle
     for _ in range(nt):
@@ -201,23 +219,26 @@ def gen_fsg(rng, lang, feats):
         if rng.chance(0.25):
             lines.append(f"TRANSITION {a} {b} {p}")
         else:
-            lines.append(f"TRANSITION {a} {b} {p} {pick_word(rng, lang)}")
+            lines.append(f"TRANSITION {a} {b} {p} {pick_word(rng, lang, True)}")
     lines.append("FSG_END")
     return "\n".join(lines) + "\n"
 
 
 def gen_align(rng, lang, feats):
-    k = rng.weighted([("true", 4), ("random", 5), ("repeat", 2), ("alt", 1)])
+    k = rng.weighted([("true", 4), ("random", 5), ("repeat", 2), ("alt", 3), ("austen", 2)])
     feats["align_" + k] = feats.get("align_" + k, 0) + 1
+    if k == "austen" and lang == "en-us":     # the 8 kHz recording's text, optionally with variants named explicitly
+        return " ".join(w + "(2)" if w in ("was", "an") and rng.chance(0.6) else w
+                        for w in "he was not an ill disposed young man".split())
     if k == "true":
         return "go forward ten meters" if lang == "en-us" else "avance de dix mètres"
     if k == "repeat":
-        w = pick_word(rng, lang)
+        w = pick_word(rng, lang, True)
         return " ".join([w] * rng.range(2, 5))
     if k == "alt" and lang == "en-us":
         return " ".join(rng.choice(["a(2)", "the(2)", "to(3)", "go", "the"]) for _ in range(rng.range(1, 4)))
     sep = rng.choice([" ", "  ", "\t", " \n"])
-    return rng.choice(["", " "]) + sep.join(pick_word(rng, lang) for _ in range(rng.range(1, 6))) + rng.choice(["", "\n"])
+    return rng.choice(["", " "]) + sep.join(pick_word(rng, lang, True) for _ in range(rng.range(1, 6))) + rng.choice(["", "\n"])
 
 
 def word_swap(rng, lang):
@@ -319,12 +340,13 @@ def gen_config(rng, stats, thorough):
 MAXCALL = 32000
 
 
-def gen_plan(rng, nsamp, stats):
-    """call sequence of one utterance: list of ops"""
+def gen_plan(rng, nsamp, stats, stream=False):
+    """call sequence of one utterance: list of ops; stream = every call searches, no full-utterance mode"""
     ops = ["start"]
     if rng.chance(0.25):
         ops.append(["dump", "zero"])
-    style = rng.weighted([("one", 4), ("full", 2), ("fixed", 4), ("random", 4), ("tinyhead", 2), ("nosearch", 2)])
+    style = rng.weighted([("one", 4), ("full", 0 if stream else 2), ("fixed", 4), ("random", 4), ("tinyhead", 2),
+                          ("nosearch", 0 if stream else 2)])
     stats["chunking"][style] = stats["chunking"].get(style, 0) + 1
     f32 = 1 if rng.chance(0.25) else 0
     chunks = []
@@ -399,11 +421,11 @@ def gen_case(rng, stats, thorough):
             if siblings and shared_audio is not None and rng.chance(0.8):
                 audio = shared_audio
             else:
-                audio = gen_audio(rng, int(cfg.get("samprate", 16000)), stats)
+                audio = gen_audio(rng, int(cfg.get("samprate", 16000)), stats, int(cfg.get("frate", 100)))
             if siblings and shared_audio is None:
                 shared_audio = audio
             n = len(render_audio(audio)) // 2
-            utts.append({"audio": audio, "plan": gen_plan(rng, n, stats)})
+            utts.append({"audio": audio, "plan": gen_plan(rng, n, stats, stream=audio[0].get("kind") == "wrap128")})
         units.append({"grammar": gram, "utts": utts})
         if rng.chance(0.12):
             units[-1]["prestart"] = True      # ask for a result before the first decoder_start_utt
